@@ -1,7 +1,6 @@
 use crate::rt::object;
 use crate::rt::{thread, Access, Execution, Location, Synchronize, VersionVec};
 
-use std::collections::HashSet;
 use std::sync::atomic::Ordering::{Acquire, Release};
 
 #[derive(Debug, Copy, Clone)]
@@ -11,7 +10,8 @@ pub(crate) struct RwLock {
 
 #[derive(Debug, PartialEq)]
 enum Locked {
-    Read(HashSet<thread::Id>),
+    /// One entry per read guard: a thread may hold several.
+    Read(Vec<thread::Id>),
     Write(thread::Id),
 }
 
@@ -36,7 +36,7 @@ pub(super) enum Action {
 #[derive(Debug)]
 pub(super) struct State {
     /// A single `thread::Id` when Write locked.
-    /// A set of `thread::Id` when Read locked.
+    /// The `thread::Id` of every read guard when Read locked.
     lock: Option<Locked>,
 
     /// Tracks write access to the rwlock.
@@ -133,7 +133,9 @@ impl RwLock {
                 _ => panic!("invalid internal loom state"),
             };
 
-            readers.remove(&thread_id);
+            if let Some(index) = readers.iter().position(|id| *id == thread_id) {
+                readers.swap_remove(index);
+            }
 
             if readers.is_empty() {
                 state.lock = None;
@@ -212,13 +214,9 @@ impl RwLock {
             // Set the lock to the current thread
             let mut already_locked = false;
             state.lock = match state.lock.take() {
-                None => {
-                    let mut threads: HashSet<thread::Id> = HashSet::new();
-                    threads.insert(thread_id);
-                    Some(Locked::Read(threads))
-                }
+                None => Some(Locked::Read(vec![thread_id])),
                 Some(Locked::Read(mut threads)) => {
-                    threads.insert(thread_id);
+                    threads.push(thread_id);
                     Some(Locked::Read(threads))
                 }
                 Some(Locked::Write(writer)) => {
